@@ -1,0 +1,12 @@
+//go:build verif
+
+package genlsp
+
+// Contracts for contract-based verification (/verif, property C19): converting line numbers to the
+// protocol's uint32 does not wrap for documents of fewer than 2^32 lines.
+
+//@ func (astFormatter).Format
+//@   opt conv checked
+//@   requires doc != nil && nlines(doc.Text) <= 4294967295
+//@   loop 0 invariant forall i int :: 0 <= i && i < len(diffs) ==> 0 <= diffs[i].FromLine && diffs[i].FromLine <= diffs[i].ToLine && diffs[i].ToLine <= nlines(doc.Text)
+//@   loop 0 invariant disjoint(edits, diffs)
